@@ -213,6 +213,7 @@ func Execute(c *Case, chooser func(i int) sched.Chooser, record func(i int, star
 		if err != nil {
 			return nil, 0, core.Infra("execution %s: %v", spec.Label, err)
 		}
+		out = out.MergeVariants() // across drivers only the per-import-path view is comparable
 		agg.Inc("executions")
 		agg.Inc("driver." + ex.Driver)
 		agg.Inc("transport." + ex.Transport)
@@ -257,16 +258,16 @@ func Execute(c *Case, chooser func(i int) sched.Chooser, record func(i int, star
 			baseOut = out
 		}
 		may := whoMayChange(c.World, spec.Variant)
-		roots := w.OutcomePaths(ex.Roots)
+		roots := w.OutcomePathsMerged(ex.Roots)
 		sort.Strings(roots)
 		for _, p := range roots {
-			if c.World.Index(strings.TrimSuffix(p, "_test")) < 0 {
+			if c.World.Index(world.BasePath(p)) < 0 {
 				continue // the extra unrelated package
 			}
 			s := out.PkgString(p)
 			log.Str(p)
 			log.Str(s)
-			if spec.Variant == "sibling" || may[p] || may[strings.TrimSuffix(p, "_test")] {
+			if spec.Variant == "sibling" || may[world.BasePath(p)] {
 				continue
 			}
 			rf, ok := refs[p]
